@@ -94,6 +94,11 @@ def build(kind):
         td = os.path.join(BUILD, "harness")
         r = run(["cargo", "build", "--profile", "mon", "-p", "vmon"], cwd=HARNESS, env={"CARGO_TARGET_DIR": td})
         out = os.path.join(td, "mon", "vmon")
+    elif kind == "dbg":
+        # unoptimised build (dev profile): recursion depth, debug assertions and overflow checks as a debug build has them
+        td = os.path.join(BUILD, "harness-dbg")
+        r = run(["cargo", "build", "-p", "vmon"], cwd=HARNESS, env={"CARGO_TARGET_DIR": td})
+        out = os.path.join(td, "debug", "vmon")
     elif kind == "rel":
         td = os.path.join(BUILD, "harness")
         r = run(["cargo", "build", "--release", "-p", "vmon"], cwd=HARNESS, env={"CARGO_TARGET_DIR": td})
